@@ -1,5 +1,6 @@
 import ScVerif.C08.PropsConc
 import ScVerif.C08.Booking
+import ScVerif.C08.GenId
 import ScVerif.C18.TimeLemmas
 /-!
 # C08 — property theorems, part 3: the booking server's `booking_intersects` filter
@@ -128,6 +129,76 @@ theorem C08_booking_listed_any_period (booked : μ → Option Period) (b : μ) (
   simp only [periodsIntersect, Bool.and_eq_true, decide_eq_true_eq]
   rw [h1, h2]
 
+/-! ### writes of the booking server that are not plain updates
+
+`CreateBooking` stores a booking under a GENERATED id (`ScVerif/C08/GenId.lean`); `CheckInBooking` /
+`CheckOutBooking` update a booking under an update mask that leaves the booked period alone. -/
+
+/-- A booking created without an id (`CreateBooking` → `Add` with `WithGenIDIfAbsent`): for every rng output
+(`cands`), validity test, id interceptor, contents, way the id callback builds the message and EVERY
+interference between the call's first read and its write lock: whatever is published is a well-formed
+history from the contents at the start to the final contents (so all `Pull` theorems hold over histories
+with such creations); the generated id is the canonical form of a valid candidate and was NOT a key when
+it was chosen; and with no interference the call publishes exactly one ADD of that id, stores it, and
+leaves every other item as it was - a generated id never replaces, updates or removes an existing item. -/
+theorem C08_generated_id_add (empty : μ) (t : Nat) (items : List (ι × μ)) (hn : NodupKeys items)
+    (canon : ι → ι) (valid : ι → Bool) (cands : List ι) (v : ι → μ) (intf : List (Op ι μ)) :
+    let r := addGen empty t items canon valid cands v intf
+    (NodupKeys r.1 ∧ WFHist (viewOf items) r.2 ∧ fold r.2 (viewOf items) = viewOf r.1) ∧
+    (∀ i, genUniqueId canon valid (fun i => (items.lookup i).isSome) cands = some i →
+      viewOf items i = none ∧ (∃ c, c ∈ cands ∧ valid c = true ∧ i = canon c) ∧
+      (intf = [] → r.2 = [mkChange i .add t none (some (v i))] ∧
+        viewOf r.1 = (viewOf items).set i (some (v i)))) ∧
+    (genUniqueId canon valid (fun i => (items.lookup i).isSome) cands = none → r = (items, [])) := by
+  refine ⟨?_, ?_, ?_⟩
+  · simp only [addGen]
+    split
+    · exact ⟨hn, trivial, rfl⟩
+    · rename_i i _
+      exact stepAct_spec t hn (Act.writeRetry i (v i) true true intf empty)
+  · intro i hi
+    have hs := genUniqueId_spec canon valid _ cands i hi
+    have hnone : items.lookup i = none := by
+      cases h : items.lookup i with
+      | none => rfl
+      | some x => simp [h] at hs
+    refine ⟨hnone, hs.2, ?_⟩
+    intro hintf
+    subst hintf
+    simp only [addGen, hi, writeRetry, getForUpdate, hnone, runOps]
+    simp [viewOf_setKey]
+  · intro hnone
+    simp only [addGen, hnone]
+
+/-- The generated booking at the subscriber: through `PullBookings`' include and read mask the ADD of a
+booking created without an id is delivered - as an ADD - exactly when the booking is listed by the request;
+it is never turned into anything else. -/
+theorem C08_generated_booking_event (booked : μ → Option Period) (q : Option Period) (proj : μ → μ)
+    (i : ι) (t : Nat) (b : μ) :
+    pullEvent (bookingInclude booked q) proj (mkChange i .add t none (some b)) =
+      if bookingListed booked q b then some (mkChange i .add t none (some (proj b))) else none := by
+  cases q with
+  | none => simp [bookingInclude, pullEvent, includeChange, bookingListed, maskChange, mkChange]
+  | some qp =>
+    by_cases h : periodsIntersect (booked b) (some qp) = true
+    · simp [bookingInclude, pullEvent, includeChange, bookingListed, maskChange, mkChange, h]
+    · simp [bookingInclude, pullEvent, includeChange, bookingListed, maskChange, mkChange, h]
+
+/-- A write that leaves the booked period alone (`CheckInBooking` / `CheckOutBooking`: an Update under the
+update mask `check_in.start_time` / `check_in.end_time`) never changes membership: for every request, the
+UPDATE of a listed booking is delivered as that UPDATE (masked), the UPDATE of an unlisted booking is not
+delivered - it is never reported as ADD or REMOVE. -/
+theorem C08_booking_checkin_keeps_membership (booked : μ → Option Period) (q : Option Period) (proj : μ → μ)
+    (i : ι) (t : Nat) (b b' : μ) (hsame : booked b' = booked b) :
+    pullEvent (bookingInclude booked q) proj (mkChange i .update t (some b) (some b')) =
+      if bookingListed booked q b then some (mkChange i .update t (some (proj b)) (some (proj b'))) else none := by
+  cases q with
+  | none => simp [bookingInclude, pullEvent, includeChange, bookingListed, maskChange, mkChange]
+  | some qp =>
+    by_cases h : periodsIntersect (booked b) (some qp) = true
+    · simp [bookingInclude, pullEvent, includeChange, bookingListed, maskChange, mkChange, h, hsame]
+    · simp [bookingInclude, pullEvent, includeChange, bookingListed, maskChange, mkChange, h, hsame]
+
 /-! ### non-vacuity -/
 
 /-- [2,4) and [3,5) intersect, [2,4) and [4,6) do not (the doc comment of `PeriodsIntersect`) -/
@@ -157,5 +228,21 @@ example :
       (bookingListed (μ := Option Period) id (some ⟨some ⟨3, 0⟩, some ⟨6, 0⟩⟩))) = [true, false, false, true, false] := by
   decide
 end examples
+
+/-- non-vacuity: the rng repeats itself (every candidate of the first two draws is `7`, taken): the third
+candidate is chosen; with all candidates taken the call is aborted and nothing changes -/
+example :
+    genUniqueId id (fun c => c ≠ 0) (fun i => (([(7, 1)] : List (Nat × Nat)).lookup i).isSome) [0, 7, 7, 9]
+      = some 9 := by decide
+
+example :
+    (addGen 0 5 [(7, 1)] id (fun c => c ≠ 0) [0, 7, 7, 9] (fun i => 100 + i) []).2.map
+        (fun c => (c.id, c.old, c.new)) = [(9, none, some 109)] := by decide
+
+example :
+    ((addGen 0 5 [(7, 1)] id (fun c => c ≠ 0) [0, 7, 7] (fun i => 100 + i) []).1,
+     (addGen 0 5 [(7, 1)] id (fun c => c ≠ 0) [0, 7, 7] (fun i => 100 + i) []).2.length)
+      = ([(7, 1)], 0) := by decide
+
 
 end ScVerif.C08
